@@ -421,6 +421,162 @@ def op_interpsigma(rng, f):
             (lambda: f.interpSigma(new, interptype=kind)), [], True, {})
 
 
+# -- functional forms of core/_functions.py (the pncgen/pncdump -s -r -c
+# --expr ... options); they work on plain files only
+def _plain(f):
+    return not is_ioapi(f) and all(
+        k.isidentifier() for k in f.variables.keys())
+
+
+def op_fn_slice_dim(rng, f):
+    from PseudoNetCDF.core._functions import slice_dim
+    dims = [(k, len(d)) for k, d in f.dimensions.items() if len(d) > 0]
+    if not dims or not _plain(f):
+        return None
+    name, ln = dims[int(rng.integers(len(dims)))]
+    a = int(rng.integers(0, ln))
+    b = int(rng.integers(a + 1, ln + 1))
+    st = int(rng.choice([1, 1, 2]))
+    form = int(rng.integers(3))
+    sdef = ['%s,%d' % (name, a), '%s,%d,%d' % (name, a, b),
+            '%s,%d,%d,%d' % (name, a, b, st)][form]
+    return ('slice_dim(%r)' % sdef, (lambda: slice_dim(f, sdef)), [], True,
+            {'slicedef': sdef})
+
+
+def op_fn_reduce_dim(rng, f):
+    from PseudoNetCDF.core._functions import reduce_dim
+    dims = [k for k, d in f.dimensions.items() if len(d) > 0 and
+            k in dims_used(f)]
+    if not dims or not _plain(f) or not all_numeric(f):
+        return None
+    name = str(rng.choice(dims))
+    fn = str(rng.choice(['mean', 'sum', 'min', 'max', 'std']))
+    rdef = '%s,%s' % (name, fn)
+    return ('reduce_dim(%r)' % rdef, (lambda: reduce_dim(f, rdef)), [], True,
+            {'reducedef': rdef})
+
+
+def op_fn_convolve_dim(rng, f):
+    from PseudoNetCDF.core._functions import convolve_dim
+    dims = [(k, len(d)) for k, d in f.dimensions.items()
+            if len(d) >= 3 and k in dims_used(f)]
+    if not dims or not _plain(f) or not all_numeric(f) or has_zero_dim(f):
+        return None
+    name, ln = dims[int(rng.integers(len(dims)))]
+    mode = str(rng.choice(['valid', 'same', 'full']))
+    cdef = '%s,%s,0.25,0.5,0.25' % (name, mode)
+    return ('convolve_dim(%r)' % cdef, (lambda: convolve_dim(f, cdef)), [],
+            True, {'convolvedef': cdef})
+
+
+def op_fn_getvarpnc(rng, f):
+    from PseudoNetCDF.core._functions import getvarpnc
+    keys = [k for k in f.variables.keys()]
+    if not keys or not _plain(f):
+        return None
+    n = int(rng.integers(1, len(keys) + 1))
+    chosen = [keys[i] for i in sorted(rng.permutation(len(keys))[:n])]
+    return ('getvarpnc(%s)' % chosen, (lambda: getvarpnc(f, list(chosen))),
+            [], True, {'keys': chosen})
+
+
+def op_fn_removesingleton(rng, f):
+    from PseudoNetCDF.core._functions import removesingleton
+    ones = [k for k, d in f.dimensions.items() if len(d) == 1]
+    if not ones or not _plain(f):
+        return None
+    key = str(rng.choice(ones))
+    return ('removesingleton(f, %s)' % key,
+            (lambda: removesingleton(f, key)), [], True, {})
+
+
+def op_fn_pncrename(rng, f):
+    from PseudoNetCDF.core._functions import pncrename
+    if not _plain(f):
+        return None
+    if rng.random() < 0.5:
+        keys = [k for k in datavars(f) if k not in f.dimensions]
+        if not keys:
+            return None
+        old = str(rng.choice(keys))
+        new = 'p' + old
+        if new in f.variables:
+            return None
+        d = 'v,%s,%s' % (old, new)
+    else:
+        # (pncrename works on the data variables and the dimensions they
+        # use; a dimension no data variable uses is not carried over)
+        used = set()
+        for k in datavars(f):
+            used.update(f.variables[k].dimensions)
+        keys = [k for k in f.dimensions.keys() if k not in f.variables and
+                k in used]
+        if not keys:
+            return None
+        old = str(rng.choice(keys))
+        new = 'p' + old
+        if new in f.dimensions:
+            return None
+        d = 'd,%s,%s' % (old, new)
+    return ('pncrename(%r)' % d, (lambda: pncrename(f, d)), [], True,
+            {'renamedef': d})
+
+
+def op_fn_splitdim(rng, f):
+    from PseudoNetCDF.core._functions import splitdim
+    cands = [(k, len(d)) for k, d in f.dimensions.items()
+             if len(d) in (4, 6) and k in dims_used(f)]
+    if not cands or not _plain(f):
+        return None
+    name, ln = cands[int(rng.integers(len(cands)))]
+    shape = (2, ln // 2)
+    return ('splitdim(%s -> %s)' % (name, shape),
+            (lambda: splitdim(f, name, ('sp_a', 'sp_b'), shape)), [],
+            'sp_a' not in f.dimensions and 'sp_b' not in f.dimensions, {})
+
+
+def op_fn_pncexpr(rng, f):
+    from PseudoNetCDF.core._functions import pncexpr
+    keys = [k for k in numeric_vars(f) if k.isidentifier() and
+            f.variables[k].ndim > 0]
+    if not keys or not _plain(f):
+        return None
+    a = str(rng.choice(keys))
+    expr = str(rng.choice(['XNEW = %s * 2', 'XNEW = %s + 1.5',
+                           'XNEW = np.abs(%s)'])) % a
+    return ('pncexpr(%r)' % expr, (lambda: pncexpr(expr, f)), [], True,
+            {'expr': expr})
+
+
+def op_fn_merge(rng, f):
+    from PseudoNetCDF.core._functions import merge
+    if not _plain(f):
+        return None
+    g = f.copy()
+    return ('merge([f, copy])', (lambda: merge([f, g])), [g], True, {})
+
+
+def op_fn_stack_files(rng, f):
+    from PseudoNetCDF.core._functions import stack_files
+    dims = [k for k in f.dimensions.keys() if k in dims_used(f)]
+    if not dims or not _plain(f):
+        return None
+    d = str(rng.choice(dims))
+    g = f.copy()
+    return ('stack_files([f, copy], %s)' % d,
+            (lambda: stack_files([f, g], d)), [g], True, {})
+
+
+FN_OPS = {
+    'fn_slice_dim': op_fn_slice_dim, 'fn_reduce_dim': op_fn_reduce_dim,
+    'fn_convolve_dim': op_fn_convolve_dim, 'fn_getvarpnc': op_fn_getvarpnc,
+    'fn_removesingleton': op_fn_removesingleton,
+    'fn_pncrename': op_fn_pncrename, 'fn_splitdim': op_fn_splitdim,
+    'fn_pncexpr': op_fn_pncexpr, 'fn_merge': op_fn_merge,
+    'fn_stack_files': op_fn_stack_files,
+}
+
 CORE_OPS = {
     'copy': op_copy, 'slice': op_slice, 'apply': op_apply, 'stack': op_stack,
     'subset': op_subset, 'renamevar': op_renamevar, 'renamedim': op_renamedim,
@@ -436,6 +592,8 @@ def run_program(f, prog_seed, nops, allowed=None, on_step=None):
     opaque pre-state), then with phase 'after'."""
     rng = np.random.default_rng([int(prog_seed), 4242])
     names = list(allowed or CORE_OPS.keys())
+    table = dict(CORE_OPS)
+    table.update(FN_OPS)
     cur = f
     trace = []
     for k in range(nops):
@@ -443,7 +601,7 @@ def run_program(f, prog_seed, nops, allowed=None, on_step=None):
         for _ in range(8):
             name = names[int(rng.integers(len(names)))]
             try:
-                made = CORE_OPS[name](rng, cur)
+                made = table[name](rng, cur)
             except Exception:
                 # preparing the arguments (e.g. copying the current file to
                 # obtain a conforming operand) failed: the operation is not
